@@ -433,6 +433,9 @@ package opset13
 //@ spec all_new(ts []tensor.Tensor) bool = forall k :: 0 <= k && k < len(ts) ==> ts[k] != nil && fresh(ts[k])
 
 // the per-time-step calculations of the recurrent operators: new tensors, nothing else written
+//@ spec act_named(f ops.Activation, name string) bool = (name == "tanh" ==> ref(f) == funcid("ops.Tanh")) && (name == "sigmoid" ==> ref(f) == funcid("ops.Sigmoid")) &&
+//@          (name == "relu" ==> ref(f) == funcid("ops.ReLU"))
+
 //@ spec known_activation(f ops.Activation) bool = ref(f) == funcid("ops.Tanh") || ref(f) == funcid("ops.Sigmoid") || ref(f) == funcid("ops.ReLU")
 
 //@ func (*GRU).gateCalculation
@@ -492,6 +495,13 @@ package opset13
 //@ func (*LSTM).Apply
 //@   tags C06,C02
 //@   requires self != nil
+//@   before gateCalculation#1 assert input_gate_uses_listed_activation_0: act_named($arg9, self.activations[0])
+//@   before gateCalculation#2 assert forget_gate_uses_listed_activation_0: act_named($arg9, self.activations[0])
+//@   before gateCalculation#3 assert cell_gate_uses_listed_activation_1: act_named($arg9, self.activations[1])
+//@   before gateCalculation#4 assert output_gate_uses_listed_activation_0: act_named($arg9, self.activations[0])
+//@   before hiddenCalculation assert hidden_state_uses_listed_activation_2: act_named($arg3, self.activations[2])
+//@   before Reshape#1 assert hidden_state_starts_from_initial_h: inputs[5] != nil ==> contents(Ht) == contents(inputs[5])
+//@   before Reshape#2 assert cell_state_starts_from_initial_c: inputs[6] != nil ==> contents(Ct) == contents(inputs[6])
 //@   before gateCalculation#1 assert input_gate_w_is_block_0: extracted_block($arg2, inputs[1], 0, self.hiddenSize)
 //@   before gateCalculation#1 assert input_gate_r_is_block_0: extracted_block($arg5, inputs[2], 0, self.hiddenSize)
 //@   before gateCalculation#1 assert input_gate_input_bias_is_block_0: extracted_block($arg3, B, 0, self.hiddenSize)
@@ -528,6 +538,10 @@ package opset13
 //@ func (*GRU).Apply
 //@   tags C06,C02
 //@   requires self != nil
+//@   before gateCalculation#1 assert update_gate_uses_listed_activation_0: act_named($arg7, self.activations[0])
+//@   before gateCalculation#2 assert reset_gate_uses_listed_activation_0: act_named($arg7, self.activations[0])
+//@   before htCalculation assert hidden_gate_uses_listed_activation_1: act_named($arg8, self.activations[1])
+//@   before Reshape#1 assert hidden_state_starts_from_initial_h: inputs[5] != nil ==> contents(prevH) == contents(inputs[5])
 //@   before gateCalculation#1 assert update_gate_w_is_block_0: extracted_block($arg3, inputs[1], 0, self.hiddenSize)
 //@   before gateCalculation#1 assert update_gate_r_is_block_0: extracted_block($arg4, inputs[2], 0, self.hiddenSize)
 //@   before gateCalculation#1 assert update_gate_input_bias_is_block_0: extracted_block($arg5, B, 0, self.hiddenSize)
@@ -557,6 +571,8 @@ package opset13
 //@ func (*RNN).Apply
 //@   tags C06,C02
 //@   requires self != nil
+//@   before layerCalculation assert layer_uses_listed_activation_0: act_named($arg7, self.activations[0])
+//@   before Reshape#1 assert hidden_state_starts_from_initial_h: inputs[5] != nil ==> contents(Ht) == contents(inputs[5])
 //@   before layerCalculation assert w_is_block_0: extracted_block($arg3, inputs[1], 0, self.hiddenSize)
 //@   before layerCalculation assert r_is_block_0: extracted_block($arg4, inputs[2], 0, self.hiddenSize)
 //@   before layerCalculation assert input_bias_is_block_0: extracted_block($arg5, B, 0, self.hiddenSize)
@@ -1088,7 +1104,7 @@ package opset13
 //@   ensures attributes_unchanged: self.axis == old(self.axis)
 //@   ensures same_shape_and_type: err == nil ==> len(result) == 1 && result[0] != nil && fresh(result[0]) && same_shape(result[0], inputs[0]) && dtype(result[0]) == dtype(inputs[0])
 
-//@ spec reduce_axes_ok(axes []int, r int) bool = len(axes) >= 1 && (forall k :: 0 <= k && k < len(axes) ==> 0 - r <= axes[k] && axes[k] < r) &&
+//@ spec reduce_axes_ok(axes []int, r int) bool = (forall k :: 0 <= k && k < len(axes) ==> 0 - r <= axes[k] && axes[k] < r) &&
 //@        (forall a :: (forall b :: 0 <= a && a < b && b < len(axes) ==> normax(axes[a], r) != normax(axes[b], r)))
 
 //@ func (*ReduceMax).Apply
@@ -1106,9 +1122,10 @@ package opset13
 //@          nk(axes, 0, i) == nk(self.axes, rank(inputs[0]), i)
 //@   ensures attributes_unchanged: sameslice(self.axes, old(self.axes)) && self.keepDims == old(self.keepDims) && (forall k :: 0 <= k && k < len(self.axes) ==> self.axes[k] == old(self.axes[k]))
 //@   ensures same_type: err == nil ==> len(result) == 1 && result[0] != nil && fresh(result[0]) && dtype(result[0]) == dtype(inputs[0])
-//@   ensures keepdims_shape: err == nil && self.keepDims ==> rank(result[0]) == rank(inputs[0]) &&
+//@   ensures keepdims_shape: err == nil && self.keepDims && len(self.axes) >= 1 ==> rank(result[0]) == rank(inputs[0]) &&
 //@          (forall i :: 0 <= i && i < rank(inputs[0]) ==> dim(result[0], i) == ite(ismemb(self.axes, rank(inputs[0]), i), 1, dim(inputs[0], i)))
-//@   ensures reduced_shape: err == nil && !self.keepDims ==> rank(result[0]) == nk(self.axes, rank(inputs[0]), rank(inputs[0])) &&
+//@   ensures no_axes_reduce_over_all_axes: err == nil && !self.keepDims && len(self.axes) == 0 ==> rank(result[0]) == 0
+//@   ensures reduced_shape: err == nil && !self.keepDims && len(self.axes) >= 1 ==> rank(result[0]) == nk(self.axes, rank(inputs[0]), rank(inputs[0])) &&
 //@          (forall i :: 0 <= i && i < rank(inputs[0]) && !ismemb(self.axes, rank(inputs[0]), i) ==> dim(result[0], nk(self.axes, rank(inputs[0]), i)) == dim(inputs[0], i))
 //@   loop 1 invariant len(axes) == len(self.axes) && fresh(axes) && base(axes) != 0 && input != nil && fresh(input) && rank(input) == rank(inputs[0]) &&
 //@          (forall k :: 0 <= k && k < $i ==> axes[k] == normax(self.axes[k], rank(inputs[0])))
@@ -1132,9 +1149,10 @@ package opset13
 //@          nk(axes, 0, i) == nk(self.axes, rank(inputs[0]), i)
 //@   ensures attributes_unchanged: sameslice(self.axes, old(self.axes)) && self.keepDims == old(self.keepDims) && (forall k :: 0 <= k && k < len(self.axes) ==> self.axes[k] == old(self.axes[k]))
 //@   ensures same_type: err == nil ==> len(result) == 1 && result[0] != nil && fresh(result[0]) && dtype(result[0]) == dtype(inputs[0])
-//@   ensures keepdims_shape: err == nil && self.keepDims ==> rank(result[0]) == rank(inputs[0]) &&
+//@   ensures keepdims_shape: err == nil && self.keepDims && len(self.axes) >= 1 ==> rank(result[0]) == rank(inputs[0]) &&
 //@          (forall i :: 0 <= i && i < rank(inputs[0]) ==> dim(result[0], i) == ite(ismemb(self.axes, rank(inputs[0]), i), 1, dim(inputs[0], i)))
-//@   ensures reduced_shape: err == nil && !self.keepDims ==> rank(result[0]) == nk(self.axes, rank(inputs[0]), rank(inputs[0])) &&
+//@   ensures no_axes_reduce_over_all_axes: err == nil && !self.keepDims && len(self.axes) == 0 ==> rank(result[0]) == 0
+//@   ensures reduced_shape: err == nil && !self.keepDims && len(self.axes) >= 1 ==> rank(result[0]) == nk(self.axes, rank(inputs[0]), rank(inputs[0])) &&
 //@          (forall i :: 0 <= i && i < rank(inputs[0]) && !ismemb(self.axes, rank(inputs[0]), i) ==> dim(result[0], nk(self.axes, rank(inputs[0]), i)) == dim(inputs[0], i))
 //@   loop 1 invariant len(axes) == len(self.axes) && fresh(axes) && base(axes) != 0 && input != nil && fresh(input) && rank(input) == rank(inputs[0]) &&
 //@          (forall k :: 0 <= k && k < $i ==> axes[k] == normax(self.axes[k], rank(inputs[0])))
@@ -1344,7 +1362,7 @@ package opset13
 //@          boxed32(binrhs(c) - 1000000) == self.alpha
 
 //@ func (*Gemm).Apply
-//@   tags C04,C02
+//@   tags C04,C02,C06
 //@   requires self != nil
 //@   scope inputs_validated: len(inputs) == 3 && inputs[0] != nil && inputs[1] != nil
 //@   scope extents_positive: dims_positive(inputs[0]) && dims_positive(inputs[1]) && (inputs[2] != nil ==> dims_positive(inputs[2]))
